@@ -50,8 +50,8 @@ def model_step(step, style_name, text):
         t = Environment(trim_blocks=True).from_string(G.TEMPLATES[tmpl][1])
         tm = "rendered:" + enc(t.render(copyright_lines=c, contributor_lines=n, spdx_expressions=l))
     tail = "\t%s\t%s\t%s\t%s\t%s\t%s\t%s\t%s" % (style_name, flags, tm, enc_list(cpr), enc_list(con), enc_list(lic), bad, enc(text))
-    a, h = run_driver(["annotate" + tail, "c09step" + tail])
-    return a + "@" + h
+    a, h, hf = run_driver(["annotate" + tail, "c09step" + tail, "c09full" + tail])
+    return a + "@" + h + ";" + hf
 
 
 def _read(root, rel):
@@ -233,7 +233,10 @@ class HistoryStream(Stream):
                 continue
             m, hyp, before_text = m.rsplit("@", 2)
             before_text = dec(before_text)
+            hyp, full = hyp.split(";", 1)
             rec = st["rec"]
+            if not self._tie_full(full, hyp, rec, st, step, before_text):
+                return False
             if hyp.startswith("H1"):
                 # theorem-hypothesis tie (C09_step_partial): the hypotheses hold on this step, so the real file must declare
                 # (raw extraction of the whole text) everything the text before declared and everything requested
@@ -264,6 +267,90 @@ class HistoryStream(Stream):
                 if rec["rc"] == 0 or rec["changed"]:
                     return False
         return True
+
+    # ---- theorem-hypothesis tie of the full-file theorems (C09_step, C09_step_crlf / _cr, C09_step_contributors)
+    HYP_NAMES = ("no-merge", "style", "line-boundaries", "no-ignore-old", "no-ignore-new", "clean-seam", "seam-above",
+                 "seam-old-block", "seam-new-block", "lf-form")
+
+    def _tie_full(self, full, partial, rec, st, step, before_text):
+        """`full` = answer of the driver op c09full on this step.  Where the hypotheses of C09_step hold (H1) the model's
+        conclusion must hold (C1) and the real file must declare everything the file before declared and everything
+        requested; where moreover the template rendered the contributors (R1): the same for contributors (K1)."""
+        stats = self._stats()
+        if full == "-":
+            return True
+        parts = dict((x[0], x[1:]) for x in full.split("|"))
+        stats["written"] += 1
+        stats["partial_hold"] += 1 if partial.startswith("H1") else 0
+        flags = parts["D"][1:]
+        for name, bit in zip(self.HYP_NAMES, flags):
+            if bit == "0":
+                stats["fails"][name] = stats["fails"].get(name, 0) + 1
+        if not step.get("merge"):
+            stats["written_nomerge"] += 1
+        if step.get("merge") and parts.get("M") != "1":
+            for name, bit in zip(("merge-lf-file", "merge-step-hyps", "merge-reads-back"), parts.get("E", ":---")[1:]):
+                if bit == "0":
+                    stats["fails"][name] = stats["fails"].get(name, 0) + 1
+        if step.get("merge") and parts.get("M") == "1":
+            # C09_step_merge / C09_history_merge: licences, the same holders, year ranges cover
+            stats["merge_hold"] = stats.get("merge_hold", 0) + 1
+            if parts["N"] != "1" or rec["rc"] != 0:
+                return False
+            a = G.lint_read_bytes((st["text_after"] or "").encode("utf-8"), window=False)
+            b = G.lint_read_bytes(before_text.encode("utf-8"), window=False)
+            if a is not None and b is not None:
+                year = G.year_text(step.get("year"))
+                want = (b[0] | {G.expected_notice(x, step.get("prefix"), year) for x in step.get("cpr", [])},
+                        b[1] | {G.norm_lic(x) for x in step.get("lic", [])}, set())
+                if G.missing(want, a, True):
+                    return False
+        if parts["H"] != "1":
+            return True
+        stats["full_hold"] += 1
+        if parts["C"] != "1" or rec["rc"] != 0:
+            return False
+        a = G.lint_read_bytes((st["text_after"] or "").encode("utf-8"), window=False)
+        b = G.lint_read_bytes(before_text.encode("utf-8"), window=False)
+        if a is None or b is None:
+            return True
+        year = G.year_text(step.get("year"))
+        want_cpr = b[0] | {G.expected_notice(x, step.get("prefix"), year) for x in step.get("cpr", [])}
+        want_lic = b[1] | {G.norm_lic(x) for x in step.get("lic", [])}
+        if G.missing((want_cpr, want_lic, set()), a, False):
+            return False
+        stats["full_tied"] += 1
+        if parts["R"] == "1":
+            stats["con_hold"] += 1
+            if parts["K"] != "1":
+                return False
+            if G.missing((set(), set(), b[2] | set(step.get("con", []))), a, False):
+                return False
+        return True
+
+    def _stats(self):
+        if not hasattr(self, "_tie"):
+            self._tie = {"written": 0, "written_nomerge": 0, "partial_hold": 0, "full_hold": 0, "full_tied": 0, "con_hold": 0, "fails": {}}
+            import atexit
+            atexit.register(self._report)
+        return self._tie
+
+    def _report(self):
+        t = self._tie
+        if not t["written"]:
+            return
+        print("C09 tie: %d steps wrote; hypotheses of C09_step_partial hold on %d, of C09_step / _crlf / _cr on %d "
+              "(of %d without --merge-copyrights), contributors tied on %d, hypotheses of C09_step_merge + mergeReadsBack on %d "
+              "(of %d with --merge-copyrights); failing hypotheses: %s"
+              % (t["written"], t["partial_hold"], t["full_hold"], t["written_nomerge"], t["con_hold"], t.get("merge_hold", 0),
+                 t["written"] - t["written_nomerge"],
+                 ", ".join("%s=%d" % kv for kv in sorted(t["fails"].items())) or "none"))
+        try:
+            from core import VERIF
+            with open(os.path.join(VERIF, "evidence", "C09-tie.json"), "w", encoding="utf-8") as fp:
+                json.dump(t, fp, indent=1, sort_keys=True)
+        except Exception:
+            pass
 
     def nontrivial(self, case, impl_out):
         if impl_out.startswith("EXC"):
